@@ -23,7 +23,7 @@ RULE = (
     "closed curves J with boundary=True/False against piece midpoints. Non-trivial: the boxes overlap and the "
     "answer does not follow from orientation alone."
 )
-MANDATORY = ["truth:True", "truth:False", "unbounded-in-unbounded:False", "unbounded-in-unbounded:True", "all-vertices-on-boundary",
+MANDATORY = ["operands-with-history", "truth:True", "truth:False", "unbounded-in-unbounded:False", "unbounded-in-unbounded:True", "all-vertices-on-boundary",
              "jordan-in-shape", "relation:scaled", "relation:independent", "relation:subcollection", "relation:notch",
              "singleton-operand", "curved"]
 
@@ -73,6 +73,8 @@ def judge(ctx, case):
         strata.append("all-vertices-on-boundary")
     if curved:
         strata.append("curved")
+    if case.get("pre_a"):
+        strata.append("operands-with-history")
     nontriv = not singleton and not (_bounded(sa) and not _bounded(sb))
     if nontriv and ca and cb:
         ba, bb = rg.curve_box([s for c in ca for s in c]), rg.curve_box([s for c in cb for s in c])
@@ -81,7 +83,9 @@ def judge(ctx, case):
     where = ("curved" if curved else "polygon") + ":" + case["relation"]
     try:
         with call_limit(240):
-            A, B = lib.build(sa), lib.build(sb)
+            from .. import opcases as oc
+
+            A, B = oc.build_operand(sa, case.get("pre_a")), oc.build_operand(sb, case.get("pre_b"))
             snapA, snapB = lib.structural_snapshot(A), lib.structural_snapshot(B)
             got = B in A
             got2 = A.contains_shape(B) if hasattr(A, "contains_shape") else got
@@ -297,7 +301,12 @@ def pair_cases(draw, curved=False):
             b = {"k": "simple", "curve": a["curve"]}
         if draw(st.booleans()):
             a, b = b, a
-    return {"a": a, "b": b, "relation": relation, "consequences": cons}
+    out = {"a": a, "b": b, "relation": relation, "consequences": cons}
+    if nk in ("int", "frac") and not curved and draw(st.integers(0, 2)) == 0:
+        # operands with a history: built elsewhere, queried, moved into place
+        out["pre_a"] = {"v": [draw(st.integers(-90, 90)), draw(st.integers(-90, 90))], "s": draw(st.sampled_from([1, 1, 2]))}
+        out["pre_b"] = {"v": [draw(st.integers(-90, 90)), draw(st.integers(-90, 90))], "s": draw(st.sampled_from([1, 1, F(1, 2)]))}
+    return out
 
 
 def parts(tier):
